@@ -282,14 +282,26 @@ def check_readmeta(seed, tier, types):
         reals += [real_readmeta(c["data"], c["rpc"]) for c in batch]
         outs += run_model([{"op": "readmeta", "file": c["data"].hex(), "n": c["n"], "L": c["L"], "rpc": c["rpc"], "types": types} for c in batch])
     bad = []
-    dist = {"ok": 0, "err": {}, "kinds": {}}
+    dist = {"ok": 0, "err": {}, "kinds": {}, "deferred_to_layout_model": 0}
     distinct = set()
-    for c, r, m in zip(cases, reals, outs):
+    # The addressing model reads record type and length only; it ASSUMES the fields of a record of a known type parse.  A
+    # corrupted length / type can make the reader frame garbage as a record, whose fields then fail to convert (a year beyond
+    # the C int range in the time stamp ...).  Such a disagreement is referred to the LAYOUT-based model of the same reader
+    # (`readImageRecords`, every field interpreted): it must give the real code's outcome.
+    suspects = [i for i, (c, r, m) in enumerate(zip(cases, reals, outs))
+                if c["kind"] in ("hdr_L", "rl", "type", "hdr_n") and {k: v for k, v in r.items() if k != "first"} != m]
+    second = dict(zip(suspects, run_model([{"op": "read_records", "file": cases[i]["data"].hex(), "rpc": cases[i]["rpc"]} for i in suspects]))) if suspects else {}
+    for i, (c, r, m) in enumerate(zip(cases, reals, outs)):
         first = r.pop("first")
         if first != 720:
             bad.append({"case": "first read is not 720", "real": first})
         if r != m:
-            bad.append({"case": {k: (v.hex() if isinstance(v, bytes) else v) for k, v in c.items()}, "real": r, "model": m})
+            lm = second.get(i)
+            if lm is not None and "err" in r and lm.get("err") == r["err"]:
+                dist["deferred_to_layout_model"] += 1
+            else:
+                bad.append({"case": {k: (v.hex() if isinstance(v, bytes) else v) for k, v in c.items()}, "real": r, "model": m,
+                            "layout_model": lm})
         if "ok" in r:
             dist["ok"] += 1
         else:
